@@ -18,12 +18,16 @@ open Rpyc
 
 abbrev Id := Nat
 
-/-- `RefCountingColl._dict` as key ↦ stored count, and (at the peer) key ↦ `____refcount__` of the live proxy -/
-abbrev Tbl := Id → Option Nat
+/-- `RefCountingColl._dict` as key ↦ stored count, and (at the peer) key ↦ `____refcount__` of the live proxy.
+(A structure around the lookup function so that compiled updates evaluate the new slot once.) -/
+structure Tbl where
+  get : Id → Option Nat
 
-def Tbl.empty : Tbl := fun _ => none
+instance : CoeFun Tbl (fun _ => Id → Option Nat) := ⟨Tbl.get⟩
 
-def Tbl.set (t : Tbl) (k : Id) (v : Option Nat) : Tbl := fun j => if j = k then v else t j
+def Tbl.empty : Tbl := ⟨fun _ => none⟩
+
+def Tbl.set (t : Tbl) (k : Id) (v : Option Nat) : Tbl := ⟨fun j => if j = k then v else t j⟩
 
 /-- the slot after `RefCountingColl.add`: first add stores 0, later adds increment -/
 def bump : Option Nat → Option Nat
@@ -308,5 +312,295 @@ def appStep (a : App) : AOp → AOut × App
 def appRun (a : App) : List AOp → App
   | [] => a
   | op :: ops => appRun (appStep a op).2 ops
+
+/-! ## Part 2 (C03): what travels by value, what by reference, and identity
+
+`_box` / `_unbox` on one connection with two symmetric ends.  Each end has its own table of lent objects, its live
+proxies with their counts, and — so that "is the same proxy object" can be said — a serial number for every proxy
+it ever created (`BaseNetref.__init__` ran). -/
+
+/-- a Python value as one end of the connection sees it -/
+inductive PyVal where
+  /-- an instance of exactly one of the immutable plain types, built only from such values -/
+  | imm (v : Val)
+  /-- an exact `tuple` -/
+  | tup (xs : List PyVal)
+  /-- any other object living at this end, with its identity: list, dict, set, function, class, module, a frozenset or
+  slice that holds such an object, a proxy that belongs to another connection -/
+  | obj (id : Id)
+  /-- an instance of a subclass of a plain type (enum member, namedtuple, `class MyInt(int)`, ...); `base` is the plain
+  value it would compare equal to -/
+  | sub (base : Val) (id : Id)
+  /-- a proxy (netref) of this connection for the peer's object `id`; `pid`: which proxy object -/
+  | proxy (id : Id) (pid : Nat)
+  deriving Repr, Inhabited
+
+/-- what `_box` returns / `_unbox` takes: `(label, value)` -/
+inductive Label where
+  | value (v : Val)
+  | tuple (ls : List Label)
+  | localRef (id : Id)
+  | remoteRef (id : Id)
+  /-- any label number `_unbox` does not know -/
+  | other (tag : Nat)
+  deriving Repr, Inhabited
+
+mutual
+/-- `brine.dumpable` on a value of this end: exact plain types only -/
+def PyVal.dumpable : PyVal → Bool
+  | .imm v => Rpyc.dumpable v
+  | .tup xs => PyVal.dumpableL xs
+  | .obj _ => false
+  | .sub _ _ => false
+  | .proxy _ _ => false
+def PyVal.dumpableL : List PyVal → Bool
+  | [] => true
+  | x :: xs => x.dumpable && PyVal.dumpableL xs
+end
+
+mutual
+/-- the brine value of a dumpable value -/
+def PyVal.toVal : PyVal → Val
+  | .imm v => v
+  | .tup xs => .tuple (PyVal.toValL xs)
+  | .obj _ => .other 0
+  | .sub _ _ => .other 0
+  | .proxy _ _ => .other 0
+def PyVal.toValL : List PyVal → List Val
+  | [] => []
+  | x :: xs => x.toVal :: PyVal.toValL xs
+end
+
+mutual
+/-- `Connection._box` against this end's table: dumpable → by value; exact tuple → item by item; a proxy of this
+connection → `LOCAL_REF`; everything else → `REMOTE_REF` and one more box in the table -/
+def box (t : Tbl) : PyVal → Except Err (Label × Tbl)
+  | .imm v => if Rpyc.dumpable v then .ok (.value v, t) else .error .notModelled
+  | .tup xs =>
+    if PyVal.dumpableL xs then .ok (.value (.tuple (PyVal.toValL xs)), t)
+    else match boxL t xs with
+      | .error e => .error e
+      | .ok (ls, t') => .ok (.tuple ls, t')
+  | .proxy id _ => .ok (.localRef id, t)
+  | .obj id => .ok (.remoteRef id, t.add id)
+  | .sub _ id => .ok (.remoteRef id, t.add id)
+def boxL (t : Tbl) : List PyVal → Except Err (List Label × Tbl)
+  | [] => .ok ([], t)
+  | x :: xs =>
+    match box t x with
+    | .error e => .error e
+    | .ok (l, t1) => match boxL t1 xs with
+      | .error e => .error e
+      | .ok (ls, t2) => .ok (l :: ls, t2)
+end
+
+/-- one end of the connection -/
+structure Side where
+  /-- `_local_objects` -/
+  tbl : Tbl
+  /-- live proxies of `_proxy_cache` and their `____refcount__` -/
+  px : Tbl
+  /-- which proxy object is the live proxy of a key -/
+  pid : Id → Nat
+  /-- proxies created so far -/
+  next : Nat
+
+def Side.init : Side := { tbl := Tbl.empty, px := Tbl.empty, pid := fun _ => 0, next := 0 }
+
+/-- `_unbox` of `REMOTE_REF id`: the cached proxy if it is alive (count + 1), else a new proxy object -/
+def unboxRef (s : Side) (id : Id) : PyVal × Side :=
+  match s.px id with
+  | some _ => (.proxy id (s.pid id), { s with px := s.px.recv id })
+  | none => (.proxy id s.next,
+      { s with px := s.px.recv id, pid := fun j => if j = id then s.next else s.pid j, next := s.next + 1 })
+
+mutual
+/-- `Connection._unbox` -/
+def unbox (s : Side) : Label → Except Err (PyVal × Side)
+  | .value v => .ok (.imm v, s)
+  | .tuple ls =>
+    match unboxL s ls with
+    | .error e => .error e
+    | .ok (xs, s') => .ok (.tup xs, s')
+  | .localRef id =>
+    match s.tbl id with
+    | none => .error .keyError
+    | some _ => .ok (.obj id, s)
+  | .remoteRef id => .ok (unboxRef s id)
+  | .other _ => .error .valueError
+def unboxL (s : Side) : List Label → Except Err (List PyVal × Side)
+  | [] => .ok ([], s)
+  | l :: ls =>
+    match unbox s l with
+    | .error e => .error e
+    | .ok (x, s1) => match unboxL s1 ls with
+      | .error e => .error e
+      | .ok (xs, s2) => .ok (x :: xs, s2)
+end
+
+mutual
+/-- keys boxed by reference, in boxing order -/
+def Label.remoteRefs : Label → List Id
+  | .remoteRef id => [id]
+  | .tuple ls => Label.remoteRefsL ls
+  | _ => []
+def Label.remoteRefsL : List Label → List Id
+  | [] => []
+  | l :: ls => l.remoteRefs ++ Label.remoteRefsL ls
+end
+
+/-! ### the label tree as the brine value that goes on the wire -/
+
+mutual
+/-- `(label, value)` as brine sees it; `pack` is `get_id_pack` for a key -/
+def Label.toVal (pack : Id → Val) : Label → Val
+  | .value v => .tuple [.int Gen.Box.labelValue, v]
+  | .tuple ls => .tuple [.int Gen.Box.labelTuple, .tuple (Label.toValL pack ls)]
+  | .localRef id => .tuple [.int Gen.Box.labelLocalRef, pack id]
+  | .remoteRef id => .tuple [.int Gen.Box.labelRemoteRef, pack id]
+  | .other tag => .tuple [.int tag, .none]
+def Label.toValL (pack : Id → Val) : List Label → List Val
+  | [] => []
+  | l :: ls => l.toVal pack :: Label.toValL pack ls
+end
+
+/-- which branch of `_unbox` a label number selects -/
+inductive LabelKind where
+  | value | tuple | localRef | remoteRef | unknown
+  deriving DecidableEq, Repr
+
+def labelKind (t : Int) : LabelKind :=
+  if t = Gen.Box.labelValue then .value
+  else if t = Gen.Box.labelTuple then .tuple
+  else if t = Gen.Box.labelLocalRef then .localRef
+  else if t = Gen.Box.labelRemoteRef then .remoteRef
+  else .unknown
+
+mutual
+/-- read a received brine value as a label tree: `label, value = package`, then the comparisons of `_unbox`, in
+its order; `unpack` reads an id pack.  Fuel = nesting depth. -/
+def parseLabel (unpack : Val → Option Id) : Nat → Val → Except Err Label
+  | 0, _ => .error .recursionError
+  | fuel + 1, .tuple [.int t, payload] =>
+    match labelKind t with
+    | .value => .ok (.value payload)
+    | .tuple =>
+      match payload with
+      | .tuple items => match parseLabelL unpack fuel items with
+        | .error e => .error e
+        | .ok ls => .ok (.tuple ls)
+      | _ => .error .typeError
+    | .localRef => match unpack payload with
+      | some id => .ok (.localRef id)
+      | none => .error .keyError
+    | .remoteRef => match unpack payload with
+      | some id => .ok (.remoteRef id)
+      | none => .error .typeError
+    | .unknown => .ok (.other t.toNat)
+  | _ + 1, _ => .error .typeError
+def parseLabelL (unpack : Val → Option Id) : Nat → List Val → Except Err (List Label)
+  | _, [] => .ok []
+  | 0, _ :: _ => .error .recursionError
+  | fuel + 1, v :: vs =>
+    match parseLabel unpack fuel v with
+    | .error e => .error e
+    | .ok l => match parseLabelL unpack (fuel + 1) vs with
+      | .error e => .error e
+      | .ok ls => .ok (l :: ls)
+end
+
+mutual
+def Label.depth : Label → Nat
+  | .tuple ls => 1 + Label.depthL ls
+  | _ => 1
+def Label.depthL : List Label → Nat
+  | [] => 0
+  | l :: ls => 1 + max l.depth (Label.depthL ls)
+end
+
+/-! ### a conversation between the two ends (what the C03 correspondence replays) -/
+
+/-- finalize the proxy of `id` at `q` (its `__del__` runs) and let the owner `o` process the release -/
+def release (o q : Side) (id : Id) : Side × Side :=
+  match q.px id with
+  | none => (o, q)
+  | some c =>
+    match o.tbl.decref id c with
+    | .error _ => (o, { q with px := q.px.set id none })
+    | .ok t => ({ o with tbl := t }, { q with px := q.px.set id none })
+
+def releaseAll (o q : Side) (ids : List Id) : Side × Side :=
+  ids.foldl (fun (p : Side × Side) id => release p.1 p.2 id) (o, q)
+
+/-- the two ends and which of the other end's objects each application holds proxies of -/
+structure Conv where
+  a : Side
+  b : Side
+  /-- keys of `a`'s objects whose proxy `b`'s application keeps -/
+  heldB : List Id
+  /-- keys of `b`'s objects whose proxy `a`'s application keeps -/
+  heldA : List Id
+
+def Conv.init : Conv := { a := Side.init, b := Side.init, heldB := [], heldA := [] }
+
+/-- what one step of a conversation shows: the label trees that travelled and the values that arrived -/
+structure Seen where
+  labels : List Label
+  values : List (PyVal × Side)
+
+/-- keys of a message in order of first appearance that the receiving application does not otherwise hold -/
+def transient (l : Label) (held : List Id) : List Id :=
+  (holdAll [] l.remoteRefs).filter (fun k => !held.contains k)
+
+/-- `a` calls a function of `b` with argument tuple `x`; `b` keeps the arguments or not -/
+def Conv.send (c : Conv) (x : PyVal) (keep : Bool) : Except Err (Seen × Conv) :=
+  match box c.a.tbl x with
+  | .error e => .error e
+  | .ok (l, ta) =>
+    match unbox c.b l with
+    | .error e => .error e
+    | .ok (y, b1) =>
+      let seen : Seen := { labels := [l], values := [(y, b1)] }
+      let a1 : Side := { c.a with tbl := ta }
+      if keep then .ok (seen, { c with a := a1, b := b1, heldB := holdAll c.heldB l.remoteRefs })
+      else
+        -- the arguments die when the handler returns: proxies nobody else holds are finalized
+        let r := releaseAll a1 b1 (transient l c.heldB)
+        .ok (seen, { c with a := r.1, b := r.2 })
+
+/-- `a` calls `b`'s identity function: `x` travels there, the received value travels back; afterwards neither
+application keeps the travelling values -/
+def Conv.echo (c : Conv) (x : PyVal) : Except Err (Seen × Conv) :=
+  match box c.a.tbl x with
+  | .error e => .error e
+  | .ok (l, ta) =>
+    match unbox c.b l with
+    | .error e => .error e
+    | .ok (y, b1) =>
+      match box b1.tbl y with
+      | .error e => .error e
+      | .ok (l2, tb) =>
+        match unbox { c.a with tbl := ta } l2 with
+        | .error e => .error e
+        | .ok (z, a1) =>
+          let seen : Seen := { labels := [l, l2], values := [(y, b1), (z, a1)] }
+          let r1 := releaseAll a1 { b1 with tbl := tb } (transient l c.heldB)      -- b's proxies of a's objects
+          let r2 := releaseAll r1.2 r1.1 (transient l2 c.heldA)                    -- a's proxies of b's objects
+          .ok (seen, { c with a := r2.2, b := r2.1 })
+
+/-- `b` hands one of its own objects to `a`, whose application keeps the proxy -/
+def Conv.make (c : Conv) (id : Id) : Except Err (Seen × Conv) :=
+  match box c.b.tbl (.obj id) with
+  | .error e => .error e
+  | .ok (l, tb) =>
+    match unbox c.a l with
+    | .error e => .error e
+    | .ok (y, a1) =>
+      .ok ({ labels := [l], values := [(y, a1)] },
+        { c with a := a1, b := { c.b with tbl := tb }, heldA := holdAll c.heldA [id] })
+
+/-- `b`'s application lets go of everything it kept -/
+def Conv.forget (c : Conv) : Conv :=
+  { c with a := (releaseAll c.a c.b c.heldB).1, b := (releaseAll c.a c.b c.heldB).2, heldB := [] }
 
 end Rpyc.Box
